@@ -262,6 +262,9 @@ def binop(op, a, b):
                 return wrap(z3.Concat(to_z3(a), to_z3(b)))
             py_raise(TypeError, "can only concatenate str")
         if op == '%' and isinstance(a, str):
+            if kb == 'int':
+                from . import sstr
+                return sstr.percent_format(a, b)       # 'stage%d' % n is structured exactly like 'stage%d' % (n,)
             from .strings import percent_format
             return percent_format(a, b)
         raise OutsideSubset("string operator %s on symbolic value" % op)
